@@ -48,6 +48,32 @@ func (c *ctx) device(seed uint64, chunked bool) *kernel.Device {
 	return d
 }
 
+// signingReader is an entropy source that itself uses the library: before
+// it delivers, it signs with another key and another caller-supplied reader
+// (a hardware-backed generator that authenticates its requests, say).  Legal,
+// and fatal for a library that holds a lock while it calls the caller's
+// reader.
+type signingReader struct {
+	inner  *secec.PrivateKey
+	dev    *kernel.Device // the inner signature's own entropy
+	out    *kernel.Device // what this reader delivers
+	digest []byte
+	calls  int
+}
+
+func (r *signingReader) Read(p []byte) (int, error) {
+	r.calls++
+	sig, err := r.inner.Sign(r.dev, r.digest, nil)
+	if err != nil {
+		return 0, err
+	}
+	n, err := r.out.Read(p)
+	if n > 0 {
+		p[0] ^= sig[len(sig)-1] // the delivered bytes depend on the inner signature
+	}
+	return n, err
+}
+
 type opKind struct {
 	name string
 	cost int  // typical number of yield points (measured on the unchanged tree; scales the preemption quanta)
@@ -186,6 +212,25 @@ func init() {
 				return hx(P().MultiScalarMultVartime(ss, ps).CompressedBytes())
 			}
 			return hx(P().MultiScalarMult(ss, ps).CompressedBytes())
+		}},
+		{name: "MultiScalarMult(private receiver among the points)", cost: 38000, warm: true, run: func(fx *Fixture, o *Op, c *ctx) string {
+			p := secp256k1.NewPointFrom(pick(fx.points, o.B)) // the caller's own object: receiver and first term
+			ss := []*secp256k1.Scalar{pick(fx.scalars, o.A), pick(fx.scalars, o.A+1)}
+			ps := []*secp256k1.Point{p, pick(fx.points, o.B+1)}
+			if o.C%2 == 1 {
+				ss, ps = append(ss, pick(fx.scalars, o.A+2)), append(ps, p)
+			}
+			if o.C%4 >= 2 {
+				p.MultiScalarMultVartime(ss, ps)
+			} else {
+				p.MultiScalarMult(ss, ps)
+			}
+			return hx(p.CompressedBytes())
+		}},
+		{name: "Sign(reader that signs)", cost: 28000, warm: true, run: func(fx *Fixture, o *Op, c *ctx) string {
+			rd := &signingReader{inner: pick(fx.privs, o.B), dev: c.device(o.Seed+1, false), out: c.device(o.Seed, o.C%2 == 1), digest: pick(fx.digests, o.C)}
+			sig, err := pick(fx.privs, o.A).Sign(rd, pick(fx.digests, o.B), fx.opts)
+			return fmt.Sprintf("%x/%s/%d", sig, errStr(err), rd.calls)
 		}},
 		// ---------------- group law on shared operands, private receivers
 		{name: "Add/Subtract/Double/Negate", cost: 458, warm: true, run: func(fx *Fixture, o *Op, c *ctx) string {
